@@ -3,7 +3,7 @@ import json
 import os
 
 from engine import rule, AnchorLost, VERIF
-from model import fn_of, trace, is_place, site, uses_of_local, const_value, strace
+from model import fn_of, trace, is_place, site, uses_of_local, const_value, strace, Super
 import common
 import deny
 
@@ -412,50 +412,80 @@ def r12_2(ctx):
     ctx.need(len(cbs) == 1, f"read callback (unsafe fn calling io::Read::read) not found ({len(cbs)})")
     cb = cbs[0]
     rd = [(bb, t) for bb, t in cb.calls() if (fn_of(t) or {}).get("trait") == "std::io::Read" and fn_of(t)["name"] == "read"][0]
-    # error slot: Option<io::Error> field written in the callback
+    # error slot: Option<io::Error> field written in the callback (or in a helper method it calls: the callback is
+    # examined with its same-crate helpers inlined)
+    sup = Super(lib, cb, depth=2)
+    rdn = ((), rd[0])
     writes = []
-    for bi in sorted(cb.reach()):
-        for s in cb.blocks[bi]["stmts"]:
+    for n in sorted(sup.nodes(), key=str):
+        nb = sup.body_of(n)
+        for s in nb.blocks[n[1]]["stmts"]:
             if s["k"] == "assign" and s["p"]["pr"] and s["p"]["pr"][-1]["k"] == "field" and "Option<std::io::Error>" in s["p"]["pr"][-1]["ty"]:
-                writes.append((bi, s))
+                writes.append((n, s))
     ctx.need(writes, "no write to an Option<io::Error> slot in the read callback")
     slot = writes[0][1]["p"]["pr"][-1]["name"]
     slot_adt = writes[0][1]["p"]["pr"][-1].get("adt")
-    # classify returns: constants returned
+
+    def const_return(body):
+        """The one constant a helper returns on every path, or None."""
+        vs = set()
+        for _, _, k_, p_ in body.whole_defs(0):
+            if k_ == "assign" and p_["rv"]["k"] == "use" and p_["rv"]["op"].get("k") == "const":
+                vs.add(p_["rv"]["op"].get("v"))
+            else:
+                vs.add(None)
+        return vs.pop() if len(vs) == 1 else None
+
+    # classify returns: constants returned by the callback, directly or as the value of a helper that returns a constant
     rets = {}
     for bi in sorted(cb.reach()):
         for s in cb.blocks[bi]["stmts"]:
             if s["k"] == "assign" and s["p"]["l"] == 0 and not s["p"]["pr"] and s["rv"]["k"] == "use" and s["rv"]["op"].get("k") == "const":
-                rets[bi] = s["rv"]["op"].get("v")
-    after_read = cb.reachable_from(rd[1]["target"])
-    fail_blocks = [bi for bi, v in rets.items() if v == 0 and bi in after_read]
-    ok_blocks = [bi for bi, v in rets.items() if v == 1 and bi in after_read]
-    ctx.ob("callback:return-codes", bool(fail_blocks) and bool(ok_blocks), site(cb), f"failure returns at blocks {fail_blocks}, success at {ok_blocks}")
+                rets[((), bi)] = s["rv"]["op"].get("v")
+        t_ = cb.blocks[bi]["term"]
+        if t_["k"] == "call" and not t_["dest"]["pr"] and t_["dest"]["l"] == 0:
+            hb = lib.by_id.get((fn_of(t_) or {}).get("resolved") or (fn_of(t_) or {}).get("def"))
+            v_ = const_return(hb) if hb is not None else None
+            if v_ is not None:
+                rets[((), bi)] = v_
+    after_read = set(sup.reachable_from(((), rd[1]["target"])))
+    fail_blocks = [n for n, v in rets.items() if v == 0 and n in after_read]
+    ok_blocks = [n for n, v in rets.items() if v == 1 and n in after_read]
+    ctx.ob("callback:return-codes", bool(fail_blocks) and bool(ok_blocks), site(cb), f"failure returns at blocks {[n[1] for n in fail_blocks]}, success at {[n[1] for n in ok_blocks]}")
     some_writes = []
     none_writes = []
-    for bi, s in writes:
-        tr = trace(cb, s["rv"]["op"]) if s["rv"]["k"] == "use" else None
+    for n, s in writes:
+        nb = sup.body_of(n)
+        tr = trace(nb, s["rv"]["op"]) if s["rv"]["k"] == "use" else None
         if s["rv"]["k"] == "aggregate" and s["rv"].get("variant") == "Some":
-            some_writes.append((bi, s["rv"]))
+            some_writes.append((n, s["rv"]))
         elif s["rv"]["k"] == "aggregate" and s["rv"].get("variant") == "None":
-            none_writes.append((bi, s["rv"]))
+            none_writes.append((n, s["rv"]))
         elif tr and tr.origin and tr.origin[0] == "agg":
-            (some_writes if tr.origin[1]["rv"].get("variant") == "Some" else none_writes).append((bi, tr.origin[1]["rv"]))
+            (some_writes if tr.origin[1]["rv"].get("variant") == "Some" else none_writes).append(((n[0], tr.origin[1].get("bb", n[1])) if False else n, tr.origin[1]["rv"]))
+
+    def precedes(wn, fn_):
+        """The write at node wn lies on every path to the return at root node fn_ (or belongs to the helper call that
+        ends that very block)."""
+        if wn == fn_ or (wn[0] and wn[0][0][1] == fn_[1] and not fn_[0]):
+            return True
+        return sup.dominates(wn, fn_)
+
     for fb in fail_blocks:
-        ok = any(cb.dominates(wb, fb) or wb == fb for wb, _ in some_writes)
-        ctx.ob(f"callback:failure-stores-error:{fail_blocks.index(fb)}", ok, site(cb, fb), "failure return is preceded by storing Some(error)" if ok else "the callback reports failure without recording the reader's error")
+        ok = any(precedes(wn, fb) for wn, _ in some_writes)
+        ctx.ob(f"callback:failure-stores-error:{fail_blocks.index(fb)}", ok, site(cb, fb[1]), "failure return is preceded by storing Some(error)" if ok else "the callback reports failure without recording the reader's error")
     # the Err arm stores the reader's own error
     own = False
-    for wb, agg in some_writes:
+    for wn, agg in some_writes:
         op = agg["ops"][0] if agg.get("ops") else None
         if op is not None:
-            tr = trace(cb, op)
+            tr = strace(sup, wn, op)
             if tr.origin and tr.origin[0] == "call" and tr.origin[2] is rd[1] and any(st[0] == "downcast" and st[1] == "Err" for st in tr.steps):
                 own = True
     ctx.ob("callback:stores-readers-own-error", own, site(cb), "the Err arm stores the very error returned by Read::read" if own else "the reader's error value is replaced before being stored")
     for ob in ok_blocks:
-        ok = any(cb.dominates(wb, ob) or wb == ob for wb, _ in none_writes)
-        ctx.ob("callback:success-clears-slot", ok, site(cb, ob), "success clears the slot" if ok else "a stale error can survive a successful read")
+        ok = any(precedes(wn, ob) for wn, _ in none_writes)
+        ctx.ob("callback:success-clears-slot", ok, site(cb, ob[1]), "success clears the slot" if ok else "a stale error can survive a successful read")
     # next_event: the error returned on failure derives from take() of the slot before any fallback
     users = []
     for b in lib.bodies:
@@ -466,6 +496,18 @@ def r12_2(ctx):
                 if any(st[0] == "field" and st[1] == slot for st in tr.steps):
                     users.append((b, bb, t))
     ctx.ob("next_event:takes-slot", len(users) >= 1, site(cb), f"{len(users)} take() of the `{slot}` slot outside the callback")
+    # a small accessor that only hands the taken value back (`fn take_read_error(&mut self) -> Option<io::Error>`):
+    # what matters is what its callers do with it
+    expanded = []
+    for b, bb, t in users:
+        res0 = t["dest"]["l"]
+        returned = not t["dest"]["pr"] and (res0 == 0 or any(k_ == "assign" and p_["rv"]["k"] == "use" and is_place(p_["rv"]["op"]) and not p_["rv"]["op"]["p"]["pr"] and p_["rv"]["op"]["p"]["l"] == res0 for _, _, k_, p_ in b.whole_defs(0)))
+        callers = [(cb_, cbb_, ct_) for cb_ in lib.bodies for cbb_, ct_ in cb_.calls() if ((fn_of(ct_) or {}).get("resolved") or (fn_of(ct_) or {}).get("def")) == b.id] if returned else []
+        if returned and callers:
+            expanded.extend(callers)
+        else:
+            expanded.append((b, bb, t))
+    users = expanded
     for b, bb, t in users:
         # result of take() is used as primary of unwrap_or_else / or_else / match
         res = t["dest"]["l"]
@@ -676,3 +718,57 @@ def r16_5(ctx):
     calls = [o for o in sub.obs if o.key == "result-producing-calls"]
     ctx.need(calls and calls[0].ok, "R12.1 examined too few Result-producing calls")
     ctx.ob("write-results-examined", True, "lib+bin", f"{n} reviewed or reported write/flush result(s) among the discards R12.1 classifies; every other write result is used")
+
+
+@rule("R12.5", 2, "xt's own writes are complete writes: `Write::write` / `write_vectored` (one attempt, possibly short, `Ok(0)` when the sink is full) are called only by a wrapper's own `write` / `write_vectored` that hands the count back; everything xt itself emits goes through write_all / write! / writeln!", ["C12", "C11", "C15"])
+def r12_5(ctx):
+    n = 0
+    for crate in (ctx.lib, ctx.bin):
+        for entry, b, bb, t in deny.hits(crate.bodies, "bare-write"):
+            n += 1
+            f = fn_of(t) or {}
+            # (the call may sit in a closure of the wrapper's method: `self.attempt(|w| w.write(buf))`)
+            root = b
+            while root.raw["def_kind"] == "Closure" and root.raw.get("parent") in crate.by_id:
+                root = crate.by_id[root.raw["parent"]]
+            wrapper = root.raw.get("impl_trait") == "std::io::Write" and root.name == f.get("name")
+            ok = wrapper
+            ctx.ob(f"bare-write:{crate.kind}:{root.name}:{f.get('name')}", ok, site(b, bb),
+                   f"`{f.get('name')}` forwarded by the wrapper's own `{root.name}` (the caller sees the count)" if ok else
+                   f"`{f.get('name')}` makes one attempt and may write only part of the data, or nothing (`Ok(0)`) when the sink is full: the rest is dropped without an error, where write_all would have reported \"failed to write whole buffer\"")
+    ctx.ob("bare-write-sites", True, "lib+bin", f"{n} single-attempt write call(s) in xt, each inside a pass-through wrapper", trivial=n == 0)
+    deny.control_obligations(ctx, "bare-write")
+
+
+@rule("R12.6", 1, "an I/O error is handed on as it is: no `io::Error` is rebuilt from the bare `ErrorKind` of another error (`err.kind().into()`, `io_error_kind()` -> `io::Error::from`), which keeps the category but drops the source's own message", ["C12", "C11"])
+def r12_6(ctx):
+    n = 0
+    for crate in (ctx.lib, ctx.bin):
+        for b in crate.bodies:
+            for bb, t in b.calls():
+                f = fn_of(t) or {}
+                a = f.get("args") or []
+                from_kind = f.get("trait") in ("std::convert::From", "std::convert::Into") and len(a) >= 2 and "std::io::ErrorKind" in a and "std::io::Error" in a
+                new_kind = f.get("def") in ("std::io::Error::new", "std::io::Error::other") and t["args"]
+                if not (from_kind or new_kind) or not t["args"]:
+                    continue
+                n += 1
+                tr = trace(b, t["args"][0])
+                src = (fn_of(tr.origin[2]) or {}).get("def") if tr.origin and tr.origin[0] == "call" else None
+                bad = src in ("std::io::Error::kind", "serde_json::Error::io_error_kind")
+                if new_kind and bad:
+                    # `io::Error::new(e.kind(), e)` keeps the original as its source: fine
+                    bad = not (len(t["args"]) >= 2 and is_place(t["args"][1]))
+                ctx.ob(f"error-from-kind:{crate.kind}:{b.name}:{_nth126(_r126_seen, (ctx.config, crate.kind, b.id))}", not bad, site(b, bb),
+                       "error built from a fixed kind (a synthetic error of xt's own)" if not bad else
+                       f"a new io::Error is built from `{src}` of an existing error: the reader's own message (\"connection reset by peer\", a custom text) is replaced by the kind's stock text")
+    _r126_seen.clear()
+    ctx.ob("kind-conversions", n >= 1, "lib+bin", f"{n} io::Error construction(s) from an ErrorKind examined")
+
+
+_r126_seen = {}
+
+
+def _nth126(d, k):
+    d[k] = d.get(k, -1) + 1
+    return d[k]
